@@ -3,7 +3,7 @@
 # 1. scratch worktree: existing tests pass with the patch; demo fails with it and passes without.
 # 2. apply to /repo, run ./check <prop> quick, undo.
 set -u
-prop=$1; sd=$2
+prop=$1; sd=$(realpath $2)
 export GOFLAGS=-mod=mod GOPROXY=off GOSUMDB=off GOTOOLCHAIN=local
 wt=$(mktemp -d /tmp/seedwt.XXXX); rmdir $wt
 git -C /repo worktree add -q --detach $wt HEAD || exit 3
@@ -11,7 +11,7 @@ demo=$(cat $sd/demo_path.txt | tr -d '\n ')
 res=""
 ( cd $wt && git apply $sd/patch.diff ) || { echo "SEED patch does not apply"; git -C /repo worktree remove --force $wt; exit 3; }
 ( cd $wt/v4 && go build ./... && go test -vet=off -count=1 ./... >/tmp/seed.suite.log 2>&1 ) && res="suite=pass" || res="suite=FAIL"
-cp $sd/demo_test.go $wt/$demo
+if [ -f $sd/demo_test.go ]; then cp $sd/demo_test.go $wt/$demo; else cp $sd/demo_test.go.txt $wt/$demo; fi
 demodir=$(dirname $demo)
 ( cd $wt/$demodir && go test -vet=off -count=1 -run . . >/tmp/seed.demo1.log 2>&1 ) && res="$res demo_with_patch=pass(BAD)" || res="$res demo_with_patch=fail(ok)"
 ( cd $wt && git apply -R $sd/patch.diff )
